@@ -285,6 +285,48 @@ def run_sequence(pid, seq, timeout=1800):
         shutil.rmtree(tmp, ignore_errors=True)
 
 
+def isolated_batch(pid, cases, timeout=900):
+    """Each case judged by the property's own oracle in a fresh interpreter that is NOT this one: an interpreter that dies (fatal
+    error, signal) is a verdict about the case, not a harness error.  The cases first run together in one child; only if that child
+    dies are they run one by one to find which case kills it.  -> list (per case) of [(key, detail), ...]."""
+    import subprocess
+    import sys
+    import tempfile
+
+    def child(batch):
+        tmp = tempfile.mkdtemp(prefix="verif-iso-")
+        try:
+            fin, fout = os.path.join(tmp, "seq.json"), os.path.join(tmp, "out.json")
+            with open(fin, "w") as f:
+                json.dump({"cases": batch}, f)
+            env = dict(os.environ, VERIF_ISOLATED_CHILD="1")
+            p = subprocess.run([sys.executable, os.path.join(VERIF, "run.py"), pid, "--sequence", fin, "--out", fout],
+                               stdout=subprocess.PIPE, stderr=subprocess.STDOUT, timeout=timeout, env=env)
+            out = p.stdout.decode(errors="replace")
+            if not os.path.exists(fout):
+                if p.returncode < 0 or "Fatal Python error" in out:
+                    fatal = [ln for ln in out.splitlines() if "Fatal Python error" in ln]
+                    return None, "exit status %s%s" % (p.returncode, ": " + fatal[0].strip() if fatal else "")
+                raise HarnessError("isolated run produced no result (rc=%s): %s" % (p.returncode, out[-1500:]))
+            with open(fout) as f:
+                res = json.load(f)
+            if res.get("error"):
+                raise HarnessError("isolated run failed: %s" % res["error"])
+            return [[tuple(x) for x in fl] for fl in res["fails"]], None
+        finally:
+            import shutil
+            shutil.rmtree(tmp, ignore_errors=True)
+
+    res, died = child(list(cases))
+    if res is not None:
+        return res
+    out = []
+    for c in cases:
+        r, died = child([c])
+        out.append(r[0] if r is not None else [("interpreter-died", "the interpreter did not survive the call (%s)" % died)])
+    return out
+
+
 def _shrink_sequence(pid, prefix, target, key, budget=30):
     """ddmin over the predecessors: smallest found list P' (subsequence of prefix) such that P' + [target] still shows `key`
     in a fresh process."""
